@@ -370,7 +370,19 @@ impl AssemblyCode {
                         && i1.dasm_operand == i2.dasm_operand
                         && !i2.protected
                     {
-                        remove_second = true;
+                        // The load also sets N and Z: it can only go if the flags already
+                        // describe A, or if what follows does not branch on them
+                        let flags_read_next = match iter.peek() {
+                            Some(AsmLine::Instruction(n)) => matches!(
+                                n.mnemonic,
+                                AsmMnemonic::BEQ | AsmMnemonic::BNE | AsmMnemonic::BMI | AsmMnemonic::BPL
+                            ),
+                            _ => true,
+                        };
+                        iter.reset_peek();
+                        if flags == FlagsState::A || !flags_read_next {
+                            remove_second = true;
+                        }
                     }
                     // Remove LDA followed by STA
                     if i1.mnemonic == AsmMnemonic::LDA
